@@ -317,6 +317,20 @@ def boundVal (Γ : Ctx) (σ : SEnv) (e : Expr) : Except SFault Int :=
   | some m => pure m
   | none => eval Γ σ e >>= asInt
 
+/-- Increment of a FOR statement (1 when `BY` is omitted). -/
+def stepVal (Γ : Ctx) (σ : SEnv) (step : Option Expr) : Except SFault Int :=
+  match step with
+  | some se => boundVal Γ σ se
+  | none => pure 1
+
+/-- FOR prologue: initial value, final value and increment are evaluated once, in this order;
+an increment of 0 is a fault. -/
+def forPre (Γ : Ctx) (σ : SEnv) (s e : Expr) (step : Option Expr) : Except SFault (Int × Int × Int) := do
+  let a ← boundVal Γ σ s
+  let b ← boundVal Γ σ e
+  let st ← stepVal Γ σ step
+  if st = 0 then .error .forStepZero else pure (a, b, st)
+
 def Label.selects (n : Int) (l : Label) : Bool := decide (labelLo l ≤ n) && decide (n ≤ labelHi l)
 
 def select (n : Int) : Branches → Option Block
@@ -349,12 +363,7 @@ def execStmt (Γ : Ctx) : Nat → SEnv → Stmt → SRes
     | .for x s e step body =>
       match Γ.lookup x with
       | some (.int k) =>
-        let pre : Except SFault (Int × Int × Int) := do
-          let a ← boundVal Γ σ s
-          let b ← boundVal Γ σ e
-          let st ← (match step with | some se => boundVal Γ σ se | none => pure 1)
-          if st = 0 then .error .forStepZero else pure (a, b, st)
-        match pre with
+        match forPre Γ σ s e step with
         | .ok (a, b, st) => forLoop Γ fuel (sinsert x (.n a) σ) x k a b st body
         | .error f => (σ, .error f)
       | _ => (σ, .error .stuck)
